@@ -63,6 +63,7 @@ counters!(
     fault_chunk_deleted,
     fault_parsed_from_an_offset,
     fault_statementwise_fold,
+    fault_subset_of_statements_fold,
     probe_bom_program,
     probe_crlf_program,
     probe_cr_program,
@@ -874,6 +875,67 @@ fn execute_inner(case: &Case, stats: &mut Stats, non_extent: &mut Option<(usize,
                             );
                         }
                     }
+                }
+            }
+        }
+    }
+    // ----------------------------------------- incremental use with gaps: a subset of the statements
+    // The same long-lived locator, but only some of the statements are folded (a caller that is
+    // interested in the definitions only, say): the cursor has to jump over the others.
+    if let ast::Mod::Module(m) = &tree {
+        if m.body.len() > 2 {
+            let pick = dg.0; // a fixed function of the program: which statements are skipped
+            let chosen: Vec<usize> = (0..m.body.len()).filter(|i| (pick >> (i % 61)) & 1 == 1).collect();
+            if !chosen.is_empty() && chosen.len() < m.body.len() {
+                stats.bump(C::fault_subset_of_statements_fold as usize);
+                let r = guarded(|| {
+                    let mut lin = LinearLocator::new(src);
+                    let mut rnd = RandomLocator::new(src);
+                    for &i in &chosen {
+                        let a = lin.fold(m.body[i].clone()).unwrap();
+                        let b = rnd.fold(m.body[i].clone()).unwrap();
+                        let mut ca = Collector::<SourceRange>::new();
+                        let _ = ca.fold(a);
+                        let mut cb = Collector::<SourceRange>::new();
+                        let _ = cb.fold(b);
+                        let (ia, ib) = (ca.finish(false).0, cb.finish(false).0);
+                        if ia.len() != ib.len() {
+                            return Some((i, 0usize, "different number of located nodes".to_string()));
+                        }
+                        for (k, (x, y)) in ia.iter().zip(ib.iter()).enumerate() {
+                            if sr_tuple(x) != sr_tuple(y) {
+                                return Some((i, k, format!("linear {:?}, random {:?}", sr_tuple(x), sr_tuple(y))));
+                            }
+                        }
+                    }
+                    None
+                });
+                match r {
+                    Err(p) => {
+                        return done(
+                            dg,
+                            steps,
+                            Some(Violation {
+                                class: format!("panic:{}", panic_class(&p)),
+                                site: "SubsetFold".into(),
+                                step: 0,
+                                detail: format!("folding statements {:?} with one LinearLocator panicked: {p}", chosen),
+                            }),
+                        );
+                    }
+                    Ok(Some((i, k, what))) => {
+                        return done(
+                            dg,
+                            steps,
+                            Some(Violation {
+                                class: "subset-fold-mismatch".into(),
+                                site: "SubsetFold".into(),
+                                step: i,
+                                detail: format!("statements {:?} folded with one LinearLocator: statement {i}, node {k}: {what}", chosen),
+                            }),
+                        );
+                    }
+                    Ok(None) => {}
                 }
             }
         }
